@@ -9,6 +9,7 @@ package main
 //     intersection dataflow.
 
 import (
+	"fmt"
 	"go/token"
 	"go/types"
 
@@ -339,6 +340,15 @@ func nilness(p *Path, v ssa.Value, at int, facts map[atomKey]bool, depth int) ni
 		case "errors.New", "fmt.Errorf", "github.com/pkg/errors.New", "github.com/pkg/errors.Errorf":
 			return nonNil
 		}
+		if g := staticCallee(&x.Call); g != nil && x.Call.Signature().Results().Len() == 1 && alwaysNonNil(g, 0, 0) {
+			return nonNil
+		}
+	case *ssa.Extract:
+		if call, ok := x.Tuple.(*ssa.Call); ok {
+			if g := staticCallee(&call.Call); g != nil && alwaysNonNil(g, x.Index, 0) {
+				return nonNil
+			}
+		}
 	}
 	// original (pre-strip) MakeInterface of a concrete value is a non-nil interface
 	if mi, ok := p.resolveNoStrip(orig, at).(*ssa.MakeInterface); ok {
@@ -402,6 +412,28 @@ func evalCond(p *Path, cond ssa.Value, at int, facts map[atomKey]bool) (val, kno
 	key, pol := normCond(cond)
 	if b, ok := facts[key]; ok {
 		return b == pol, true
+	}
+	if key.op == token.EQL && key.y != nil {
+		// x == C is false when x == D (D != C) is known
+		for _, pr := range [][2]ssa.Value{{key.x, key.y}, {key.y, key.x}} {
+			cst, ok := pr[1].(*ssa.Const)
+			if !ok || cst.Value == nil {
+				continue
+			}
+			for k2, v2 := range facts {
+				if !v2 || k2.op != token.EQL || k2.y == nil {
+					continue
+				}
+				for _, pr2 := range [][2]ssa.Value{{k2.x, k2.y}, {k2.y, k2.x}} {
+					if pr2[0] != pr[0] {
+						continue
+					}
+					if c2, ok := pr2[1].(*ssa.Const); ok && c2.Value != nil && c2.Value.ExactString() != cst.Value.ExactString() {
+						return !pol, true
+					}
+				}
+			}
+		}
 	}
 	if key.op == token.EQL && key.y == nil {
 		switch nilness(p, key.x, at, facts, 0) {
@@ -684,4 +716,54 @@ func loadSource(v ssa.Value) ssa.Value {
 		idx = len(b.Instrs)
 	}
 	return nil
+}
+
+var alwaysNonNilCache = map[string]bool{}
+
+// alwaysNonNil: every return of g yields a non-nil value for result k (error
+// constructors such as unexpectedTypeError).
+func alwaysNonNil(g *ssa.Function, k int, depth int) bool {
+	if g == nil || g.Blocks == nil || depth > 3 || !InModule(g) {
+		return false
+	}
+	key := fmt.Sprintf("%p/%d", g, k)
+	if v, ok := alwaysNonNilCache[key]; ok {
+		return v
+	}
+	alwaysNonNilCache[key] = false
+	n := 0
+	res := true
+	for _, b := range g.Blocks {
+		r, ok := b.Instrs[len(b.Instrs)-1].(*ssa.Return)
+		if !ok {
+			continue
+		}
+		n++
+		if k >= len(r.Results) {
+			res = false
+			break
+		}
+		v := r.Results[k]
+		switch y := v.(type) {
+		case *ssa.MakeInterface:
+			continue
+		case *ssa.Call:
+			if g2 := staticCallee(&y.Call); g2 != nil && alwaysNonNil(g2, 0, depth+1) {
+				continue
+			}
+			switch calleeID(y) {
+			case "errors.New", "fmt.Errorf":
+				continue
+			}
+		case *ssa.UnOp:
+			if gl, ok := y.X.(*ssa.Global); ok && isErrorType(gl.Type().(*types.Pointer).Elem()) {
+				continue
+			}
+		}
+		res = false
+		break
+	}
+	res = res && n > 0
+	alwaysNonNilCache[key] = res
+	return res
 }
